@@ -407,6 +407,8 @@ class MultiVector:
     def asmatrix(self):
         """ Returns a matrix representation of this multivector. """
         bin2index = {k: i for i, k in enumerate(self.algebra.canon2bin.values())}
+        if not self.keys():
+            return 0 * self.algebra.matrix_basis[0]  # The zero matrix, not the number 0.
         return sum(v * self.algebra.matrix_basis[bin2index[k]] for k, v in self.items())
 
     def asfullmv(self, canonical=True):
